@@ -167,7 +167,97 @@ pub proof fn lemma_prefixes_bounded_forall<T>(ds: Seq<VectorDiff<T>>, s: Seq<T>,
         }
     }
 }
+pub broadcast proof fn lemma_apply_len1<T>(ds: Seq<VectorDiff<T>>, s: Seq<T>)
+    requires ds.len() == 1,
+    ensures #[trigger] apply_all(ds, s) == apply(ds[0], s),
+{
+    reveal_with_fuel(apply_all, 2);
+    assert(ds.drop_last() =~= Seq::<VectorDiff<T>>::empty());
+}
+pub broadcast proof fn lemma_applicable_len1<T>(ds: Seq<VectorDiff<T>>, s: Seq<T>)
+    requires ds.len() == 1,
+    ensures #[trigger] all_applicable(ds, s) == applicable(ds[0], s),
+{
+    reveal_with_fuel(apply_all, 2); reveal_with_fuel(all_applicable, 2);
+    assert(ds.drop_last() =~= Seq::<VectorDiff<T>>::empty());
+}
+pub broadcast proof fn lemma_emittable_len1<T>(ds: Seq<VectorDiff<T>>, s: Seq<T>)
+    requires ds.len() == 1,
+    ensures #[trigger] all_emittable(ds, s) == emittable(ds[0], s),
+{
+    reveal_with_fuel(apply_all, 2); reveal_with_fuel(all_emittable, 2);
+    assert(ds.drop_last() =~= Seq::<VectorDiff<T>>::empty());
+}
+pub broadcast proof fn lemma_push_fronts_only<T>(mapped: Seq<VectorDiff<T>>, s: Seq<T>)
+    requires all_push_front(mapped),
+    ensures #[trigger] apply_all(mapped, s) == unpush(mapped).reverse() + s,
+{
+    assert(Seq::<VectorDiff<T>>::empty() + mapped =~= mapped);
+    lemma_add_push_fronts_b(Seq::<VectorDiff<T>>::empty(), mapped, s);
+}
+pub broadcast proof fn lemma_push_fronts_only_c<T>(mapped: Seq<VectorDiff<T>>, s: Seq<T>)
+    requires all_push_front(mapped),
+    ensures #[trigger] all_applicable(mapped, s),
+{
+    assert(Seq::<VectorDiff<T>>::empty() + mapped =~= mapped);
+    lemma_add_push_fronts_c(Seq::<VectorDiff<T>>::empty(), mapped, s);
+}
+pub broadcast proof fn lemma_push_fronts_only_e<T>(mapped: Seq<VectorDiff<T>>, s: Seq<T>)
+    requires all_push_front(mapped),
+    ensures #[trigger] all_emittable(mapped, s),
+{
+    assert(Seq::<VectorDiff<T>>::empty() + mapped =~= mapped);
+    lemma_add_push_fronts_e(Seq::<VectorDiff<T>>::empty(), mapped, s);
+}
+pub broadcast proof fn lemma_prefixes_rep_pop_front<T>(k: nat, s: Seq<T>, b: int)
+    requires k <= s.len(), s.len() <= b,
+    ensures #[trigger] prefixes_bounded(rep(VectorDiff::<T>::PopFront, k), s, b),
+    decreases k,
+{
+    if k > 0 {
+        lemma_prefixes_rep_pop_front::<T>((k - 1) as nat, s, b);
+        let r = rep(VectorDiff::<T>::PopFront, k);
+        assert(r.drop_last() =~= rep(VectorDiff::<T>::PopFront, (k - 1) as nat));
+        lemma_rep_pop_front::<T>(k, s);
+    }
+}
+pub broadcast proof fn lemma_prefixes_rep_pop_back<T>(k: nat, s: Seq<T>, b: int)
+    requires k <= s.len(), s.len() <= b,
+    ensures #[trigger] prefixes_bounded(rep(VectorDiff::<T>::PopBack, k), s, b),
+    decreases k,
+{
+    if k > 0 {
+        lemma_prefixes_rep_pop_back::<T>((k - 1) as nat, s, b);
+        let r = rep(VectorDiff::<T>::PopBack, k);
+        assert(r.drop_last() =~= rep(VectorDiff::<T>::PopBack, (k - 1) as nat));
+        lemma_rep_pop_back::<T>(k, s);
+    }
+}
+pub proof fn lemma_prefixes_add_push_fronts<T>(ds: Seq<VectorDiff<T>>, items: Seq<T>, s: Seq<T>, b: int)
+    requires prefixes_bounded(ds, s, b), apply_all(ds, s).len() + items.len() <= b,
+    ensures prefixes_bounded(ds + push_fronts(items), s, b),
+    decreases items.len(),
+{
+    if items.len() == 0 {
+        assert(ds + push_fronts(items) =~= ds);
+    } else {
+        let it0 = items.drop_last();
+        lemma_prefixes_add_push_fronts(ds, it0, s, b);
+        let all = ds + push_fronts(items);
+        assert(all.drop_last() =~= ds + push_fronts(it0));
+        lemma_add_push_fronts(ds, items, s);
+    }
+}
+pub broadcast proof fn lemma_prefixes_add_push_fronts_b<T>(ds: Seq<VectorDiff<T>>, mapped: Seq<VectorDiff<T>>, s: Seq<T>, b: int)
+    requires all_push_front(mapped), prefixes_bounded(ds, s, b), apply_all(ds, s).len() + mapped.len() <= b,
+    ensures #[trigger] prefixes_bounded(ds + mapped, s, b),
+{
+    assert(mapped =~= push_fronts(unpush(mapped)));
+    lemma_prefixes_add_push_fronts(ds, unpush(mapped), s, b);
+}
 pub broadcast group diff_lemmas {
+    lemma_apply_len1, lemma_applicable_len1, lemma_emittable_len1, lemma_push_fronts_only, lemma_push_fronts_only_c, lemma_push_fronts_only_e,
+    lemma_prefixes_rep_pop_front, lemma_prefixes_rep_pop_back, lemma_prefixes_add_push_fronts_b,
     lemma_prefixes_empty, lemma_prefixes_push,
     lemma_apply_empty, lemma_applicable_empty, lemma_emittable_empty, lemma_apply_push, lemma_applicable_push, lemma_emittable_push,
     lemma_rep_pop_front, lemma_rep_pop_front_applicable, lemma_rep_pop_front_emittable,
